@@ -226,3 +226,39 @@ func VH_C03_context_hooks() {
 	}
 	zzverif.Reach("C03/context-hooks")
 }
+
+// Siblings: hooks attached to one child must never show up in (or replace those of) a sibling,
+// also when the parent's hook slice has spare capacity (hooks added by separate Hook calls).
+func VH_C03_sibling_hooks() {
+	vHookLog = nil
+	w := &vWriter{}
+	p := New(w)
+	n := zzverif.Choice(4)
+	for i := 0; i < n; i++ {
+		p = p.Hook(vActHook{id: i})
+	}
+	a := p.Hook(vActHook{id: 7})
+	b := p.Hook(vActHook{id: 8}, vActHook{id: 9})
+	var l Logger
+	var want []int
+	for i := 0; i < n; i++ {
+		want = append(want, i)
+	}
+	switch zzverif.Choice(3) {
+	case 0:
+		l, want = a, append(want, 7)
+	case 1:
+		l, want = b, append(want, 8, 9)
+	case 2:
+		l = p
+	}
+	if zzverif.Choice(2) == 1 {
+		l = l.With().Str("c", "v").Logger().Level(TraceLevel)
+	}
+	l.Info().Msg("m")
+	zzverif.Assert(len(vHookLog) == len(want), "sibling hooks: exactly the hooks of the logger's own derivation path run")
+	for i := range want {
+		zzverif.Assert(vHookLog[i].id == want[i], "sibling hooks: ancestors' hooks first, then the logger's own, never a sibling's")
+	}
+	zzverif.Reach("C03/sibling-hooks")
+}
